@@ -38,6 +38,9 @@ func (t *TwinLog) FirstDiff(o *TwinLog) (string, string) {
 		if t.Labels[i] != o.Labels[i] {
 			return "sequence", fmt.Sprintf("entry %d is %s in world A and %s in world B", i, t.Labels[i], o.Labels[i])
 		}
+		if strings.HasSuffix(t.Labels[i], "/pre") {
+			continue // a precondition for FirstDiffUnderPolicy, not an output
+		}
 		if t.Data[i] != o.Data[i] {
 			return t.Labels[i], firstDiff(t.Data[i], o.Data[i])
 		}
@@ -46,6 +49,82 @@ func (t *TwinLog) FirstDiff(o *TwinLog) (string, string) {
 		return "length", fmt.Sprintf("%d vs %d entries", len(t.Data), len(o.Data))
 	}
 	return "", ""
+}
+
+// FirstDiffUnderPolicy judges a pair in which the policy is switched on during the run: it
+// returns the first difference inside a call that ran under the policy and started, in both
+// worlds, from the same stored state and input once URN-by-contract fields are removed.
+func (t *TwinLog) FirstDiffUnderPolicy(o *TwinLog) (label, detail string, judgedCalls int) {
+	n := len(t.Data)
+	if len(o.Data) < n {
+		n = len(o.Data)
+	}
+	judging := false
+	for i := 0; i < n; i++ {
+		if t.Labels[i] != o.Labels[i] {
+			if judging {
+				return "sequence", fmt.Sprintf("entry %d is %s in world A and %s in world B", i, t.Labels[i], o.Labels[i]), judgedCalls
+			}
+			return "", "", judgedCalls // the schedules diverged while nothing was required: nothing more can be aligned
+		}
+		switch {
+		case strings.HasSuffix(t.Labels[i], "/policy"):
+			judging = t.Data[i] == "urns" && o.Data[i] == "urns" && i+1 < n && strings.HasSuffix(t.Labels[i+1], "/pre") && t.Data[i+1] == o.Data[i+1]
+			if judging {
+				judgedCalls++
+			}
+		case strings.HasSuffix(t.Labels[i], "/pre"):
+		case judging && t.Data[i] != o.Data[i]:
+			return t.Labels[i], firstDiff(t.Data[i], o.Data[i]), judgedCalls
+		}
+	}
+	return "", "", judgedCalls
+}
+
+// projectURNs removes every member named urn/urns (the fields that carry URNs by contract) from a JSON document.
+func projectURNs(doc []byte) []byte {
+	if len(doc) == 0 {
+		return nil
+	}
+	var x any
+	if json.Unmarshal(doc, &x) != nil {
+		return doc
+	}
+	var strip func(v any) any
+	strip = func(v any) any {
+		switch tv := v.(type) {
+		case map[string]any:
+			// output-only events stored with a run (what was sent, errors) are never read back by the
+			// engine or reachable from expressions: texts sent before the policy came on are not state
+			if evs, ok := tv["events"].([]any); ok && tv["path"] != nil {
+				kept := evs[:0]
+				for _, e := range evs {
+					if em, _ := e.(map[string]any); em != nil {
+						switch em["type"] {
+						case "msg_created", "ivr_created", "broadcast_created", "session_triggered", "email_sent", "error", "warning", "failure":
+							continue
+						}
+					}
+					kept = append(kept, e)
+				}
+				tv["events"] = kept
+			}
+			for k, c := range tv {
+				if k == "urn" || k == "urns" {
+					delete(tv, k)
+					continue
+				}
+				tv[k] = strip(c)
+			}
+		case []any:
+			for i := range tv {
+				tv[i] = strip(tv[i])
+			}
+		}
+		return v
+	}
+	b, _ := json.Marshal(strip(x))
+	return b
 }
 
 // walkContext renders every path of a context value (depth bounded, lazies forced).
@@ -133,6 +212,16 @@ func CollectTwin(log *TwinLog) func(w *World, c *Call) {
 		if c.Err != nil {
 			errS = c.Err.Error()
 		}
+		// the policy of the environment the session ran this sprint under (what a judge of the pair
+		// needs to know: differences are only forbidden while the policy is on)
+		policy := "none"
+		if c.Session != nil && c.Session.Environment() != nil && c.Session.Environment().RedactionPolicy() == envs.RedactionPolicyURNs {
+			policy = "urns"
+		}
+		log.add(fmt.Sprintf("call%d/policy", c.N), policy)
+		// what the call started from, minus the fields that are URNs by contract: twins whose stored
+		// state and input agree on this hold no URN-derived data
+		log.add(fmt.Sprintf("call%d/pre", c.N), string(projectURNs(c.Before))+"\n"+string(projectURNs(c.InputJSON)))
 		log.add(fmt.Sprintf("call%d/outcome", c.N), c.Kind+"/"+c.ResumeType+"|"+errS+"|"+firstLine(c.Panic))
 		if !callOK(c) {
 			return
